@@ -6,5 +6,6 @@ seen=[]
 for d in sorted(glob.glob(f"/verif/seeded/{pid}-*/meta.json")):
     m=json.load(open(d)); seen.append("- "+m.get("summary","")[:260].replace("\n"," "))
 extra="\n\nALREADY EXPLORED by earlier red-teamers (do NOT repeat these ideas or close variants of them; find different mechanisms, different functions among the property's anchors and observation points, different kinds of trigger):\n"+"\n".join(seen) if seen else ""
-extra+="\n\nAlso avoid the by-now well-covered trigger families: Fortran-ordered / non-contiguous input arrays with overwrite_a, non-symmetric (gyroscopic) damping, unsorted index vectors, exactly 0 Hz, unit/scale changes crossing an absolute tolerance, integer constants at constant±1. Prefer: multi-step call sequences and stale caches, option combinations, dtype (int / float32 / complex) inputs, empty or single-element inputs, broadcasting shapes (1-D vs 2-D column), repeated or duplicate entries, results that are right in value but wrong in order/label/shape, state carried between calls on one object, two cooperating sites."
+extra+="\n\nThis is ROUND "+rnd+": earlier rounds concentrated on the central routines. Prefer now the LESS central functions among the property's observation points and anchored files (helpers, option handling, alternative entry points, rarely used keyword arguments, error paths that must refuse bad input, return-value packaging), and defects made of two cooperating edits that each look fine alone."
+extra+="\n\nAlso avoid the by-now well-covered trigger families: Fortran-ordered / non-contiguous input arrays with overwrite_a, non-symmetric (gyroscopic) damping, unsorted index vectors, exactly 0 Hz, unit/scale changes crossing an absolute tolerance, integer constants at constant±1, call sequences on one object / stale caches, aliasing of returned arrays, mutation of the caller's arrays, integer / float32 dtypes of inputs. Prefer: option combinations, rarely used keyword arguments, empty or single-element inputs, broadcasting shapes (1-D vs 2-D column), repeated or duplicate entries, results that are right in value but wrong in order/label/shape, state carried between calls on one object, two cooperating sites."
 print(base.replace("\nFINAL REPLY:", extra+"\n\nFINAL REPLY:"))
